@@ -460,7 +460,15 @@ func c5PreChecks(c *Ctx) {
 				c.Check(ok2, "R5.2", FuncKey(fn), "enabler-is-live-core/"+tf[0]+"."+tf[1]+"#"+itoa(n), st.Pos(), "the adapter's level enabler is the logger's core itself, not a snapshot (stored value %s)", d)
 			})
 		})
-		if n == 0 {
+		hasField := false
+		if stt, ok := named.Underlying().(*types.Struct); ok {
+			for i := 0; i < stt.NumFields(); i++ {
+				hasField = hasField || stt.Field(i).Name() == tf[1]
+			}
+		}
+		if n == 0 && !hasField {
+			c.Triv("R5.2", "zapgrpc."+tf[0]+"."+tf[1], "stores", 0, "the type keeps no enabler of its own (nothing to go stale)")
+		} else if n == 0 {
 			c.Bad("R5.2", "zapgrpc."+tf[0]+"."+tf[1], "stores", 0, "no store to the enabler field found")
 		}
 	}
